@@ -123,30 +123,12 @@ func fieldsN(s string, n int) []string {
 
 func init() {
 	StringType.Dict["endswith"] = MustNewMethod("endswith", func(self Object, args Tuple) (Object, error) {
-		selfStr := string(self.(String))
-		suffix := []string{}
-		if len(args) > 0 {
-			if s, ok := args[0].(String); ok {
-				suffix = append(suffix, string(s))
-			} else if s, ok := args[0].(Tuple); ok {
-				for _, t := range s {
-					if v, ok := t.(String); ok {
-						suffix = append(suffix, string(v))
-					}
-				}
-			} else {
-				return nil, ExceptionNewf(TypeError, "endswith first arg must be str, unicode, or tuple, not %s", args[0].Type())
-			}
-		} else {
-			return nil, ExceptionNewf(TypeError, "endswith() takes at least 1 argument (0 given)")
-		}
-		for _, s := range suffix {
-			if strings.HasSuffix(selfStr, s) {
-				return Bool(true), nil
-			}
-		}
-		return Bool(false), nil
+		return self.(String).startsEndsWith(args, "endswith", strings.HasSuffix)
 	}, 0, "endswith(suffix[, start[, end]]) -> bool")
+
+	StringType.Dict["startswith"] = MustNewMethod("startswith", func(self Object, args Tuple) (Object, error) {
+		return self.(String).startsEndsWith(args, "startswith", strings.HasPrefix)
+	}, 0, "startswith(prefix[, start[, end]]) -> bool")
 
 	StringType.Dict["count"] = MustNewMethod("count", func(self Object, args Tuple) (Object, error) {
 		return self.(String).Count(args)
@@ -180,38 +162,6 @@ replaced.`)
 	StringType.Dict["split"] = MustNewMethod("split", func(self Object, args Tuple, kwargs StringDict) (Object, error) {
 		return self.(String).Split(args, kwargs)
 	}, 0, "split(sub) -> split string with sub.")
-
-	StringType.Dict["startswith"] = MustNewMethod("startswith", func(self Object, args Tuple) (Object, error) {
-		selfStr := string(self.(String))
-		prefix := []string{}
-		if len(args) > 0 {
-			if s, ok := args[0].(String); ok {
-				prefix = append(prefix, string(s))
-			} else if s, ok := args[0].(Tuple); ok {
-				for _, t := range s {
-					if v, ok := t.(String); ok {
-						prefix = append(prefix, string(v))
-					}
-				}
-			} else {
-				return nil, ExceptionNewf(TypeError, "startswith first arg must be str, unicode, or tuple, not %s", args[0].Type())
-			}
-		} else {
-			return nil, ExceptionNewf(TypeError, "startswith() takes at least 1 argument (0 given)")
-		}
-		if len(args) > 1 {
-			if s, ok := args[1].(Int); ok {
-				selfStr = selfStr[s:]
-			}
-		}
-
-		for _, s := range prefix {
-			if strings.HasPrefix(selfStr, s) {
-				return Bool(true), nil
-			}
-		}
-		return Bool(false), nil
-	}, 0, "startswith(prefix[, start[, end]]) -> bool")
 
 	StringType.Dict["strip"] = MustNewMethod("strip", func(self Object, args Tuple, kwargs StringDict) (Object, error) {
 		return self.(String).Strip(args)
@@ -619,77 +569,104 @@ func (s String) M__contains__(item Object) (Object, error) {
 	return NewBool(strings.Contains(string(s), string(needle))), nil
 }
 
-func (s String) Count(args Tuple) (Object, error) {
-	var (
-		pysub Object
-		pybeg Object = Int(0)
-		pyend Object = Int(s.len())
-		pyfmt        = "s|ii:count"
-	)
-	err := ParseTuple(args, pyfmt, &pysub, &pybeg, &pyend)
-	if err != nil {
-		return nil, err
+// substrArgs parses (sub[, start[, end]]) and returns the part of s the
+// search is restricted to, with start and end interpreted as in slice
+// notation (in code points).  ok is false if the range is empty because
+// start lies beyond end or beyond the end of the string.
+func (s String) substrArgs(args Tuple, name string) (sub Object, str String, beg int, ok bool, err error) {
+	if len(args) < 1 || len(args) > 3 {
+		return nil, "", 0, false, ExceptionNewf(TypeError, "%s() takes from 1 to 3 arguments (%d given)", name, len(args))
 	}
-
-	var (
-		beg  = int(pybeg.(Int))
-		end  = int(pyend.(Int))
-		size = s.len()
-	)
-	if beg > size {
-		beg = size
+	size := s.len()
+	end := size
+	if len(args) > 1 && args[1] != None {
+		if beg, err = sliceIndexInt(args[1]); err != nil {
+			return nil, "", 0, false, err
+		}
 	}
-	if end < 0 {
-		end = size
+	if len(args) > 2 && args[2] != None {
+		if end, err = sliceIndexInt(args[2]); err != nil {
+			return nil, "", 0, false, err
+		}
 	}
 	if end > size {
 		end = size
+	} else if end < 0 {
+		end += size
+		if end < 0 {
+			end = 0
+		}
 	}
+	if beg < 0 {
+		beg += size
+		if beg < 0 {
+			beg = 0
+		}
+	}
+	if beg > end {
+		return args[0], "", beg, false, nil
+	}
+	return args[0], s.slice(beg, end, size), beg, true, nil
+}
 
-	var (
-		str = string(s.slice(beg, end, s.len()))
-		sub = string(pysub.(String))
-	)
-	return Int(strings.Count(str, sub)), nil
+func (s String) startsEndsWith(args Tuple, name string, match func(s, affix string) bool) (Object, error) {
+	what, str, _, ok, err := s.substrArgs(args, name)
+	if err != nil {
+		return nil, err
+	}
+	var affixes Tuple
+	switch w := what.(type) {
+	case String:
+		affixes = Tuple{w}
+	case Tuple:
+		affixes = w
+	default:
+		return nil, ExceptionNewf(TypeError, "%s first arg must be str or a tuple of str, not %s", name, what.Type().Name)
+	}
+	for _, a := range affixes {
+		affix, isStr := a.(String)
+		if !isStr {
+			return nil, ExceptionNewf(TypeError, "tuple for %s must only contain str, not %s", name, a.Type().Name)
+		}
+		if ok && match(string(str), string(affix)) {
+			return True, nil
+		}
+	}
+	return False, nil
+}
+
+func (s String) Count(args Tuple) (Object, error) {
+	pysub, str, _, ok, err := s.substrArgs(args, "count")
+	if err != nil {
+		return nil, err
+	}
+	sub, isStr := pysub.(String)
+	if !isStr {
+		return nil, ExceptionNewf(TypeError, "must be str, not %s", pysub.Type().Name)
+	}
+	if !ok {
+		return Int(0), nil
+	}
+	return Int(strings.Count(string(str), string(sub))), nil
 }
 
 func (s String) find(args Tuple) (Object, error) {
-	var (
-		pysub Object
-		pybeg Object = Int(0)
-		pyend Object = Int(s.len())
-		pyfmt        = "s|ii:find"
-	)
-	err := ParseTuple(args, pyfmt, &pysub, &pybeg, &pyend)
+	pysub, str, beg, ok, err := s.substrArgs(args, "find")
 	if err != nil {
 		return nil, err
 	}
-
-	var (
-		beg  = int(pybeg.(Int))
-		end  = int(pyend.(Int))
-		size = s.len()
-	)
-	if beg > size {
-		beg = size
+	sub, isStr := pysub.(String)
+	if !isStr {
+		return nil, ExceptionNewf(TypeError, "must be str, not %s", pysub.Type().Name)
 	}
-	if end < 0 {
-		end = size
+	if !ok {
+		return Int(-1), nil
 	}
-	if end > size {
-		end = size
-	}
-
-	var (
-		off = s.slice(0, beg, s.len()).len()
-		str = string(s.slice(beg, end, s.len()))
-		sub = string(pysub.(String))
-		idx = strings.Index(str, sub)
-	)
+	idx := strings.Index(string(str), string(sub))
 	if idx < 0 {
-		return Int(idx), nil
+		return Int(-1), nil
 	}
-	return Int(off + String(str[:idx]).len()), nil
+	return Int(beg + String(str[:idx]).len()), nil
 }
 
 func (s String) Split(args Tuple, kwargs StringDict) (Object, error) {
